@@ -76,6 +76,7 @@ uint64_t __CPROVER_uninterpreted_gcd(uint64_t, uint64_t);
 _Bool __CPROVER_uninterpreted_issquare(uint64_t);
 uint64_t __CPROVER_uninterpreted_isqrt(uint64_t);
 uint64_t __CPROVER_uninterpreted_pow(uint64_t, uint64_t);
+uint64_t __CPROVER_uninterpreted_jac(uint64_t, uint64_t);
 _Bool __CPROVER_uninterpreted_powfits(uint64_t, uint64_t);
 _Bool __CPROVER_uninterpreted_poweq(uint64_t, uint64_t, uint64_t, uint64_t, uint64_t);
 #define LL2C_UMUL64(x, y) __CPROVER_uninterpreted_umul64((uint64_t)(x), (uint64_t)(y))
@@ -89,6 +90,7 @@ _Bool __CPROVER_uninterpreted_poweq(uint64_t, uint64_t, uint64_t, uint64_t, uint
 #define SPEC_pow(a, b) __CPROVER_uninterpreted_pow((uint64_t)(a), (uint64_t)(b))
 #define SPECP_powfits(a, b) __CPROVER_uninterpreted_powfits((uint64_t)(a), (uint64_t)(b))
 #define SPECP_poweq(v, b, e, b0, e0) __CPROVER_uninterpreted_poweq((uint64_t)(v), (uint64_t)(b), (uint64_t)(e), (uint64_t)(b0), (uint64_t)(e0))
+#define SPEC_jac(a, n) __CPROVER_uninterpreted_jac((uint64_t)(a), (uint64_t)(n))
 #define SPECP_issquare(n) __CPROVER_uninterpreted_issquare((uint64_t)(n))
 #endif
 
